@@ -15,7 +15,7 @@ RULE = ("p <hex>: HttpHdrCc::parse on a NUL-free field value (< 64 KB), state re
         "and by re-parse == first parse. i/n/q <hex>: strListGetItem / httpHeaderParseInt / httpHeaderParseQuotedString alone "
         "(exhaustive small alphabets; model correspondence + reference on the strictly valid subset). "
         "non-trivial = a p case in which parse recorded at least one directive; distinct = distinct input lines")
-TRUSTED = ["modelled, not verified: glibc atoi = (int)strtol(s, NULL, 10) with clamping (the C standard leaves overflow undefined), "
+TRUSTED = ["modelled, not verified: glibc strtol (skip isspace, optional sign, digits, saturation + ERANGE, end == start without digits), "
            "String/MemBuf/appendf as byte-list append and %d/%s formatting, LookupTable as case-insensitive last-match lookup over attrsList",
            "python reference lexer/oracle in props/C29.py (RFC 9111 section 5.2 grammar, RFC 9110 quoted-string)"]
 ASSUMPTIONS = ["field values are C strings (no NUL) shorter than 65535 octets (SquidString limit); each parse starts from a freshly "
@@ -267,16 +267,14 @@ def mismatches_p(v, impl):
             out.append("list:%s expected %s got %s" % (k, "~" if exp[f] is None else hx(exp[f]), "~" if st[f] is None else hx(st[f])))
     if "other" not in unspec and st["other"] != b", ".join(exp["other"]):
         out.append("other: expected %s got %s" % (hx(b", ".join(exp["other"])), hx(st["other"])))
-    if "other" in st["flags"] and not st["other"]:
-        out.append("flag:other set without text")
     present = bool(exp["flags"] or exp["num"] or exp["priv"] is not None or exp["nc"] is not None or exp["other"])
     if not out:     # (otherwise a wrong return value is a consequence of the mismatch already listed)
         if present and not st["ok"]:
             out.append("ok: parse reports failure although directives are present")
         if not present and not unspec and st["ok"]:
             out.append("ok: parse reports success although no directive is present")
-    if st["ok"] != (1 if st["flags"] else 0):
-        out.append("ok: return value disagrees with isSet()")
+    if st["flags"] and not st["ok"]:
+        out.append("ok: parse reports failure although isSet() shows directives")
     # re-serialise: the packed text must parse to the same directives
     for key in ("ok", "flags", "num", "priv", "nc", "other"):
         if st[key] != st2[key]:
@@ -286,28 +284,27 @@ def mismatches_p(v, impl):
 
 
 # ---- the classes of inputs on which the real code is known to violate the statement (known_findings.d/C29.json) ----
-def atoi_value(a):
-    """what glibc atoi + the int conversion make of the argument (used only to recognise the known defect's signature)"""
+def lenient_value(a):
+    """what httpHeaderParseInt (strtol + int range check) makes of the argument; None = rejected
+    (used only to recognise the known defect's signature)"""
     m = ATOI_RE.match(a)
     if not m:
         return None
     mag = int(m.group(2))
     val = -mag if m.group(1) == b"-" else mag
-    val = max(-2 ** 63, min(2 ** 63 - 1, val))
-    val = (val + 2 ** 31) % 2 ** 32 - 2 ** 31
+    if val < -2 ** 31 or val > 2 ** 31 - 1:
+        return None
+    if val == 0 and not a[:1].isdigit():
+        return None
     return val
 
 
 def numeric_region(a):
-    """'wrap' | 'lenient' | None for the argument text of a numeric directive"""
-    if a is None:
+    """'lenient' | None for the argument text of a numeric directive"""
+    if a is None or DIGITS_RE.fullmatch(a):
         return None
-    if DIGITS_RE.fullmatch(a):
-        return "wrap" if int(a) > INT32_MAX and atoi_value(a) >= 0 else None
-    v = atoi_value(a)
+    v = lenient_value(a)
     if v is None or v < 0:
-        return None
-    if v == 0 and not a[:1].isdigit():
         return None
     return "lenient"
 
@@ -320,20 +317,13 @@ def regions(v):
     for idx, e in enumerate(elems):
         core = e.strip(C_SPACE)
         if not core:
-            # white-space controls only; strListGetItem skips SP HT CR LF and ',' in front, so VT/FF must lead what is left
-            lead = e.lstrip(b" \t\r\n")
-            if lead and idx + 1 < len(elems):
-                res.add("C29-vt-item-ends-list")
-            continue
+            continue            # white-space controls only: skipped like any other white space
         n, a = name_arg(core if has_ctl(e) else e)
         k = known_name(n)
         if k:
             anything_known = True
         if k in NUMERIC:
-            r = numeric_region(a)
-            if r == "wrap":
-                res.add("C29-numeric-wraps")
-            elif r == "lenient":
+            if numeric_region(a) == "lenient":
                 res.add("C29-numeric-lenient")
         if k in LISTS and a is not None and QS_RE.fullmatch(a):
             body = a[1:-1]
@@ -357,13 +347,8 @@ def regions(v):
 
 def explained(tag, v, impl, regs):
     kind = tag.split(":", 1)[0]
-    if "C29-vt-item-ends-list" in regs and kind in ("flag", "num", "list", "other", "ok"):
-        return "C29-vt-item-ends-list"
-    if kind == "num":
-        if "C29-numeric-wraps" in regs:
-            return "C29-numeric-wraps"
-        if "C29-numeric-lenient" in regs:
-            return "C29-numeric-lenient"
+    if kind == "num" and "C29-numeric-lenient" in regs:
+        return "C29-numeric-lenient"
     if kind == "list":
         if "C29-quoted-pair" in regs:
             return "C29-quoted-pair"
@@ -422,9 +407,11 @@ def oracle(line, impl):
             v = unhx(w[1])
             if DIGITS_RE.fullmatch(v) and int(v) <= INT32_MAX:
                 return None if impl == "ok %d" % int(v) else "valid decimal %s parsed as %s" % (v.decode(), impl)
-            if atoi_value(v) is None:
+            if ATOI_RE.match(v) is None:
                 return None if impl == "fail" else "text without a number accepted: " + impl
-            return None     # lenient / overflowing spellings: judged at the directive level (p)
+            if DIGITS_RE.fullmatch(v):
+                return None if impl == "fail" else "a decimal that does not fit int parsed as " + impl
+            return None     # lenient spellings (sign, white space, trailing text): judged at the directive level (p)
         if w[0] == "q":
             n, v = int(w[1]), unhx(w[2])
             body = v[:n]
